@@ -14,7 +14,7 @@ CHECKS = {
  "C01": dict(engine="projsim", level="exploration", section="4 C01", technique="model-based property testing (rapid): generated projects x generated edit/build histories, differential against a from-scratch build of the same tree",
    text="Whole dawn projects (multi-package DAGs, helpers, closures, defaults, globals, flags, source dirs, generated files) and histories of edits interleaved "
         "with sub-target, failing, dry, always, child-process and interrupted builds (the child dies at the n-th hit of a named point in bodies, record writes or the index write) run through the real Load/Run; every body writes a digest of all its inputs, so a "
-        "stale target shows as a byte difference against a clean twin build. Also: a dependent of a target that executed in a build executes after it. Edits include integer constants moved by a power of two (2^8 .. 2^64) around the widths of fixed-size encodings; a quarter of the projects use file and directory names with characters that URL escaping, label syntax and shells treat specially.",
+        "stale target shows as a byte difference against a clean twin build. Also: a dependent of a target that executed in a build executes after it. Edits include integer constants moved by a power of two (2^8 .. 2^64) around the widths of fixed-size encodings; a quarter of the projects use file and directory names with characters that URL escaping, label syntax and shells treat specially. Source edits include new contents that arrive with an old modification time.",
    note="Bodies use only the injected vf builtins and depend only on inputs the property lists; <= 4 packages, <= 8 targets, <= 28 operations per history."),
  "C02": dict(engine="projsim", level="exploration", section="4 C02", technique="metamorphic property testing (rapid): build, apply no-op-class operations, rebuild in a fresh process under a generated package load order; nothing may execute",
    text="Generated projects are built in a child process, changed only by no-op-class operations (touch, same-content rewrite, recreate, comments, blank lines, "
@@ -25,7 +25,7 @@ CHECKS = {
    text="The faulty build of each generated scenario is first run in counting mode to list every crash-point occurrence (body start/middle/end, record "
         "temp-file create / encode / rename, failure records, load-time refresh, index create / write); each selected (quick: up to 6, thorough: all) point "
         "kills a child process there; afterwards the project must load (index preferred or not) without touching files, interrupted or failed targets must "
-        "re-execute, and the recovery and final builds must equal a from-scratch build byte for byte. A failing-body variant is checked the same way. A process that dies in the middle of the in-place write of index.json is modelled by cutting the complete file to k/17 of its bytes (4 cuts in quick, 16 in thorough).",
+        "re-execute, and the recovery and final builds must equal a from-scratch build byte for byte. A failing-body variant is checked the same way. A process that dies in the middle of the in-place write of index.json is modelled by cutting the complete file to k/17 of its bytes (4 cuts in quick, 16 in thorough). A fifth of the faulty builds are the second run of one loaded project whose first run was a dry run; the failing-body variant is also recovered on the same loaded project (run fails, cause removed, same Project runs again).",
    note="Crash = process exit at a Go-level boundary named by a verif-tagged hook; power-loss effects (torn writes, reordered renames) are not modelled."),
  "C04": dict(engine="cosched", level="exploration", section="4 C04", technique="schedule exploration: generated graphs x generated schedules on a cooperative token scheduler (rapid), plus delay-injection runs and -race in thorough",
    text="The real runner.Run executes generated acyclic graphs with recording Targets while a cooperative scheduler that owns every scheduling point of "
@@ -46,12 +46,12 @@ CHECKS = {
  "C07": dict(engine="starval", level="exploration", section="4 C07", technique="property-based testing (rapid): round-trip / isomorphism oracle over generated values",
    text="Generated-value search (rapid, shrinking) against a structural-isomorphism oracle that also compares types and aliasing, plus a pair oracle "
         "(one-leaf mutations must not decode equal) and encode determinism/fixpoint. Boundary classes (int widths, string lengths, batch sizes at every "
-        "position, sharing, cycles, host objects) are forced by the generator and counted in the evidence; a pickler that allocates its arguments per call under forced garbage collections checks that sharing is by value identity, not by address. Strings include the codec's own vocabulary (module and class names of the host picklers, alone and joined).",
+        "position, sharing, cycles, host objects) are forced by the generator and counted in the evidence; a pickler that allocates its arguments per call under forced garbage collections checks that sharing is by value identity, not by address. Strings include the codec's own vocabulary (module and class names of the host picklers, alone and joined). One boundary-length string in sixty is 1-3 MB long.",
    note="Trusts the harness' Iso relation and starlark.Equal; sizes <= 3002 elements, strings <= 65537 bytes; cycles through a host object's argument tuple are outside the generator (C08 covers recursion)."),
  "C08": dict(engine="projsim", level="exploration", section="4 C08", technique="grammar-based property testing (rapid) in child processes: terminates-without-crash oracle, determinism across processes, metamorphic change detection",
    text="BUILD files generated from a grammar of value and function kinds (recursion, mutual recursion, closures, defaults, nested defs, big and cyclic data, "
         "predeclared values) are built in fresh child processes with a 64 MB stack cap: the first build must exit normally without an environment error, a "
-        "second process must evaluate nothing (also on a copy of the project at another path), and a third must re-evaluate the target exactly when a referenced item was mutated (constants, code, defaults, captured values, parameter lists, rebound builtins). Item kinds include globals bound to methods of values (mutation: another receiver) and values of other kinds (ranges, the views returned by string and bytes methods; mutation: another value, or the same elements as another kind), the same definitions in another order with their uses swapped too (globals, captured variables, universals), a builtin and the string that spells its name, and integer alias pairs (v and v - 2^64).",
+        "second process must evaluate nothing (also on a copy of the project at another path), and a third must re-evaluate the target exactly when a referenced item was mutated (constants, code, defaults, captured values, parameter lists, rebound builtins). Item kinds include globals bound to methods of values (mutation: another receiver) and values of other kinds (ranges, the views returned by string and bytes methods; mutation: another value, or the same elements as another kind), the same definitions in another order with their uses swapped too (globals, captured variables, universals), a builtin and the string that spells its name, and integer alias pairs (v and v - 2^64). Value pairs include values of different types that the language calls equal (2 / 2.0, [1, 2] / [1.0, 2]).",
    note="Programs are bounded by the grammar (<= ~60 lines); the os/sh/json modules of the CLI are not injected in the child processes."),
  "C09": dict(engine="cosched", level="exploration", section="4 C09", technique="schedule exploration (rapid) over configurations: limits 1,2,3,4,16 via CPU affinity, invariant on a harness counter of executing targets",
    text="Shards run under taskset with 1,2,3,4 and 16 CPUs (the runner's limit is runtime.NumCPU); graphs are biased to fans wider than the limit. The harness "
@@ -64,7 +64,7 @@ CHECKS = {
    note="Windows without a scheduling point are reached only by delay injection and -race (thorough)."),
  "C10": dict(engine="mvssim", level="exploration", section="4 C10", technique="property-based testing (rapid): differential against a reference MVS (reachability + max) plus metamorphic cache/order variations",
    text="Generated universes (diamonds, cycles, several majors, pre-releases) and root requirement sets are resolved by mvs.BuildList and by an independent "
-        "BFS/maximum reference; the answer must be identical with warm memo, warm disk cache, cold cache and all requirement names renamed, and after a transient fetch failure a list returned by the same resolver must still be the reference list. The harness spells project paths itself (nothing from internal/project), majors include v10, v12, v20 and v100.",
+        "BFS/maximum reference; the answer must be identical with warm memo, warm disk cache, cold cache and all requirement names renamed, and after a transient fetch failure a list returned by the same resolver must still be the reference list. The harness spells project paths itself (nothing from internal/project), majors include v10, v12, v20 and v100. In a fifth of the universes two projects differ in the letter case of their directory only.",
    note="Universes are served by a harness vcs.Repository through a verif-tagged dialer adapter (internal/mvs/export_verif.go); at most 7 projects / 23 tagged versions."),
  "C11": dict(engine="mvssim", level="exploration", section="4 C11", technique="property-based testing (rapid): stateful operation sequences checked against relations over reference build lists",
    text="Sequences of Tidy / UpgradeAll / Get(query) are applied as the CLI does; each step is judged by the statement's relations (build list preserved, "
@@ -84,7 +84,7 @@ CHECKS = {
  "C14": dict(engine="projsim", level="exploration", section="4 C14", technique="model-based property testing (rapid): twin histories with/without garbage collection, plus invariants over the record directory after each collection",
    text="Histories with target/source additions and removals are run twice, with and without collections (full-load and index-preferring styles, strays "
         "planted in temp/). Executed bodies must agree build by build; after a collection live records are byte-identical, dead records gone (full style), "
-        "temp/ empty, nothing outside .dawn/build touched. File and directory names may contain + % space & = , ~ $ and non-ASCII letters.",
+        "temp/ empty, nothing outside .dawn/build touched. File and directory names may contain + % space & = , ~ $ and non-ASCII letters. Names may sit in dot-directories (record names then start with a dot).",
    note="A removed label is never re-created (the property's own quantifier); the removal clause is checked for full-load collections only."),
  "C15": dict(engine="starval", level="exploration", section="4 C15", technique="structure-aware mutation fuzzing (rapid) + coverage-guided native fuzzing (go test -fuzz) with a value-or-error oracle",
    text="Mutated valid encodings (values and real function environments), opcode soup and every truncation of the environment seeds are decoded with the "
@@ -92,16 +92,16 @@ CHECKS = {
    note="Inputs <= 4 KiB; declared 4-byte lengths larger than the input are excluded by an independent framing walker, as the statement allows; native fuzzing is not seed-reproducible (crashers become replay files)."),
  "C16": dict(engine="starval", level="exploration", section="4 C16", technique="property-based testing (rapid): reconstruction oracle over generated value pairs",
    text="Generated pairs (new derived from old by edits, or independent) are diffed; the oracle rebuilds both sequences from the edit list by position, checks "
-        "old/new sides at every nesting level, mapping edits against the key sets, and nil-iff-equal; long sequences around the bounded search's restart point are enumerated. Rebuild reasons of generated histories must name every differing part of the environment (recomputed from the diff's two sides) and no equal one.",
+        "old/new sides at every nesting level, mapping edits against the key sets, and nil-iff-equal; long sequences around the bounded search's restart point are enumerated. Rebuild reasons of generated histories must name every differing part of the environment (recomputed from the diff's two sides) and no equal one. A fifth of the ordinary builds of the reason histories are interrupted (child killed at a named point).",
    note="Trusts starlark.Equal as the equality notion; acyclic values; lengths <= 3000."),
  "C17": dict(engine="pure", level="exploration", section="4 C17", technique="property-based testing (rapid): differential against an independent recursive glob matcher, plus end-to-end glob()/os.glob/ignore on generated trees",
    text="Pattern lists (mostly 2+ patterns) and paths derived from the patterns (including prefix/suffix extensions) are compared with a reference matcher "
-        "written from the statement; generated file trees check glob(), os.glob and the ignore list end to end. Atoms include digits, commas and text that is regexp syntax when unquoted ({2}, {1,2}, (?i), .*, a+).",
+        "written from the statement; generated file trees check glob(), os.glob and the ignore list end to end. Atoms include digits, commas and text that is regexp syntax when unquoted ({2}, {1,2}, (?i), .*, a+). Letters whose UTF-8 encodings share leading bytes occur in patterns and paths.",
    note="Unescaped [ and ], newlines and invalid UTF-8 are outside the domain; empty list is only asked about non-empty paths."),
  "C18": dict(engine="projsim", level="exploration", section="4 C18", technique="model-based property testing (rapid): event-grammar and output-line oracle over generated histories with parallel targets, plus a reference model of the line writer under generated chunkings",
    text="The real line writer is driven by generated Write/Flush rounds against a split-by-newline model; generated projects with printing and chunk-writing "
         "bodies, failing bodies, missing and cyclic dependencies, dry runs and repeated runs of one loaded project are built and each label's event sequence, "
-        "printed lines, ordering against dependencies and RunDone are checked. Dependencies may spell the bare label of an existing package next to its default target.",
+        "printed lines, ordering against dependencies and RunDone are checked. Dependencies may spell the bare label of an existing package next to its default target. Line-writer rounds include runs of 1000-131072 bytes without a newline (long lines arriving in pieces).",
    note="The CLI renderers (package main) are not executed; interleavings of parallel targets are whatever the real scheduler produces on 16 cores."),
  "C19": dict(engine="pure", level="exploration", section="4 C19", technique="property-based testing (rapid): write/load round-trip and re-write byte equality",
    text="Generated configurations with hostile strings and keys are written, loaded, compared, re-written (byte equality) and pushed through a get/tidy-style rewrite. One case in 250 is a large file (up to 25000 requirements, ignore patterns up to 1.2 MB).",
